@@ -435,6 +435,52 @@ def run_shard(spec, ctx):
                 continue
             judge_roundtrip(ctx, b, 'vector:' + os.path.basename(f))
             ctx.count('roundtrip.vectors')
+    # ---- last step of the shard (it changes the process-wide opcode table):
+    # byte strings that were decompiled while a code was unassigned are
+    # decompiled again after add_soft_fork gave the code a name
+    table_change_phase(ctx, 180 + i)
+
+
+def table_change_phase(ctx, code):
+    functions, parsing, tools, _, _ = env.mods()
+    name = f'OP_FORKED{code}'
+    targets = [bytes([code, 2]), b'\x01\x01' + bytes([code, 2]),
+               b'\x01\x2b\x00\x04\x02\x01' + bytes([code, 1]) + b'\x01',
+               b'\x29\x00\x00\x02' + bytes([code, 0]) + b'\x2a\x00\x01',
+               b'\x3d\x00\x02' + bytes([code, 3]) + b'\x00\x02'
+               + bytes([code, 1])]
+    before = []
+    for t in targets:
+        before.append(parsing.decompile_script(t))
+        judge_roundtrip(ctx, t, 'before-table-change')
+
+    def op(tape, stack, cache):
+        tape.read(1)
+    try:
+        tools.add_soft_fork(code, name, op, [])
+    except BaseException as e:
+        ctx.inconclusive_because(f'add_soft_fork failed: {e!r}'[:200])
+        return
+    for t, was in zip(targets, before):
+        ctx.evaluated()
+        case = {'kind': 'table-change', 'code': code, 'b': t}
+        try:
+            ls = parsing.decompile_script(t)
+            rb = parsing.compile_script('\n'.join(ls))
+        except BaseException as e:
+            ctx.violation('decompile-after-table-change', 'after the code got '
+                          'a name, bytes decompiled earlier no longer '
+                          'decompile / recompile', case, name, repr(e)[:160])
+            continue
+        if rb != t or not any(name in ln for ln in ls) or \
+                any(f'NOP{code}' in ln for ln in ls):
+            ctx.violation('decompile-after-table-change', 'after the code got '
+                          'a name, bytes decompiled earlier are still listed '
+                          'the old way / do not round-trip', case,
+                          name, repr(ls)[:200])
+        else:
+            ctx.count('table_change.redecompiled_ok')
+            ctx.mark_nontrivial(dg(t + b'fork'))
 
 
 def finalize(agg, tier):
@@ -452,6 +498,8 @@ def finalize(agg, tier):
 
 
 def replay(case, ctx):
+    if case.get('kind') == 'table-change':
+        return table_change_phase(ctx, case['code'])
     if case.get('kind') == 'roundtrip':
         judge_roundtrip(ctx, case['b'], case.get('origin', 'replay'))
     else:
